@@ -55,10 +55,15 @@ S1 = f'''<xs:schema xmlns:xs="{XS}">
      <xs:unique name="ub"><xs:selector xpath=".//x"/><xs:field xpath="@v"/></xs:unique>
      <xs:key name="kb"><xs:selector xpath=".//y"/><xs:field xpath="@v"/></xs:key></xs:element>
   <xs:element name="fix" type="xs:integer" fixed="7"/>
+  <xs:element name="bl" type="Base" block="extension"/>
+  <xs:element name="nl" type="xs:integer" nillable="true"/>
+  <xs:element ref="head"/>
   <xs:element name="open"><xs:complexType><xs:sequence><xs:any namespace="##other" processContents="lax" minOccurs="0" maxOccurs="unbounded"/></xs:sequence>
       <xs:attribute name="id" type="xs:ID"/><xs:attribute name="ref" type="xs:IDREF"/></xs:complexType></xs:element>
 </xs:choice></xs:complexType></xs:element>
 <xs:element name="item" type="Base"/>
+<xs:element name="head" type="Base" block="substitution"/>
+<xs:element name="memb" type="Ext" substitutionGroup="head"/>
 <xs:complexType name="Base"><xs:sequence/><xs:attribute name="n" type="xs:decimal"/></xs:complexType>
 <xs:complexType name="Ext"><xs:complexContent><xs:extension base="Base"><xs:sequence>
    <xs:element name="x" maxOccurs="unbounded"><xs:complexType><xs:attribute name="v" type="xs:integer"/></xs:complexType></xs:element>
@@ -97,6 +102,13 @@ D1 = [
     _root(''),
     _root('<secA><item/></secA><secB>' + _item('Ext', [6, 7]) + '</secB>'),              # ua's counter exists but is disabled
     _root('<secB>' + _item('Ext', [8, 8]) + '</secB><secA>' + _item('Ext', [9, 9]) + '</secA>'),
+    # per-occurrence checks that a schema-level "already seen" record must never short-cut
+    _root('<bl xsi:type="Ext"><x v="1"/></bl>'),                                         # xsi:type blocked by the element
+    _root('<bl/><bl xsi:type="Ext"/>'),
+    _root('<secA>' + _item('Ext', [1, 2]) + '</secA><bl xsi:type="Ext"><x v="3"/></bl>'),  # same type: fine under item, blocked under bl
+    _root('<nl xsi:nil="true"/><nl xsi:nil="true">5</nl><nl>6</nl>'),
+    _root('<memb><x v="1"/></memb>'),                                                   # substitution blocked by the head
+    _root('<head/>'),
 ]
 
 S2 = f'''<xs:schema xmlns:xs="{XS}" xmlns:vc="http://www.w3.org/2007/XMLSchema-versioning" elementFormDefault="qualified">
